@@ -27,7 +27,7 @@ def regenerate_lock():
     files.append(mpath)
     # stale parts of an earlier run with more parts
     for f in os.listdir(GEN):
-        if re.match(r"Lock(Certs|Wl)\d+\.lean$", f) and f not in certs:
+        if re.match(r"Lock(Certs|Wl|Atomic)\d+\.lean$", f) and f not in certs:
             os.unlink(os.path.join(GEN, f))
     return res, files
 
